@@ -8,6 +8,8 @@ CONSTANTS
   Fails = {"perm"}
   MaxFaults = 1
   MaxCmds = 5
+  MaxEnv = 0
+  EnvPlan = "any"
   Allowed = {"*"}
   Devs = {"DataFailNoAbort", "CommitStopsAtFirst", "LmtpStatusKey", "EhloNoLogout", "MailRawSender", "NestedMail", "LmtpCommitErrLost", "LmtpCommitAfterReject"}
   Gen = FALSE
